@@ -253,3 +253,19 @@ Example C16_sim_example :
   let bus := mkBus B19200 [mkCap 1 1000 0 3] [220; 3; 2] 1000 (Some 3) in
   bus_wf bus /\ avail bus 1600 = Ok 1%nat /\ avail bus 2800 = Ok 3%nat /\ no_overflow bus (mkCap 1 1000 0 3) 2800.
 Proof. cbv zeta. split; [|split; [|split]]; try (vm_compute; reflexivity). - cbn. lia. - unfold no_overflow. cbn. lia. Qed.
+
+(* ------------------------------------------------------------------ idle transmit calls
+   A transmit call of a PHY whose closure sends nothing (transmit_telegram(now, |_| None), i.e.
+   transmit_data with length 0) leaves the bus and the PHY as they are: receive_data shows the
+   same bytes afterwards - nothing unread is dropped, also not the start of an incomplete telegram.
+   It is accepted whenever nobody is sending. *)
+Theorem C16_sim_idle_transmit_noop : forall (bus : simbus) (p : simphy) (bus' : simbus) (p' : simphy),
+  sim_transmit bus p [] = Ok (bus', p') ->
+  bus' = bus /\ p' = p /\ phy_view (sim_phy bus') p' = phy_view (sim_phy bus) p.
+Proof. exact sim_idle_transmit_noop. Qed.
+Print Assumptions C16_sim_idle_transmit_noop.
+
+Theorem C16_sim_idle_transmit_ok : forall (bus : simbus) (p : simphy),
+  is_active bus = Ok None -> sim_transmit bus p [] = Ok (bus, p).
+Proof. exact sim_idle_transmit_ok. Qed.
+Print Assumptions C16_sim_idle_transmit_ok.
